@@ -67,6 +67,13 @@ def dumpMsa (m : Msa) : String := Id.run do
 
 def parseMask (s : String) : List Bool := if s == "-" then [] else s.toList.map (· == '1')
 
+/-- with `cyc=1` the pattern is repeated cyclically (or cut) to exactly `need` flags -/
+def maskFor (ws : List String) (s : String) (need : Nat) : List Bool :=
+  let pat := parseMask s
+  if (argNat? ws "cyc").getD 0 != 0 then
+    (List.range need).map fun i => if pat.isEmpty then false else pat.getD (i % pat.length) false
+  else pat
+
 def parseCt (s : String) : List Nat :=
   if s == "-" then [0] else 0 :: (s.splitOn ",").map (fun w => w.toNat?.getD 0)
 
@@ -163,7 +170,7 @@ def step (s : S) (line : String) : S × String :=
     match which with
     | some m => (s, if validate m then "ok" else "fail")
     | none => (s, "nomsa")
-  | "swap" :: _ => ({ a := s.b, b := s.a }, "ok")
+  | "swap" :: _ => if s.b.isNone then (s, "noswap") else ({ a := s.b, b := s.a }, "ok")
   | "digitize" :: _ =>
     match s.a, (arg? ws "abc").bind abcOf with
     | some m, some a => let r := digitize a m; ({ s with a := some r.msa }, resLine r)
@@ -175,14 +182,14 @@ def step (s : S) (line : String) : S × String :=
   | "colsubset" :: _ =>
     match s.a, arg? ws "mask" with
     | some m, some mk =>
-      let mask := parseMask mk
+      let mask := maskFor ws mk m.alen
       if mask.length != m.alen then (s, "bad-op") else
       let r := columnSubset m mask; ({ s with a := some r.msa }, resLine r)
     | _, _ => (s, "bad-op")
   | "rbb" :: _ =>
     match s.a, arg? ws "mask" with
     | some m, some mk =>
-      let mask := parseMask mk
+      let mask := maskFor ws mk m.alen
       if mask.length != m.alen then (s, "bad-op") else
       let r := removeBrokenBasepairs m mask; ({ s with a := some r.msa }, resLine r)
     | _, _ => (s, "bad-op")
@@ -207,7 +214,7 @@ def step (s : S) (line : String) : S × String :=
   | "seqsubset" :: _ =>
     match s.a, arg? ws "mask" with
     | some m, some mk =>
-      let mask := parseMask mk
+      let mask := maskFor ws mk m.nseq
       if mask.length != m.nseq then (s, "bad-op") else
       match sequenceSubset m mask with
       | .ok b => ({ s with b := some b }, "ok")
